@@ -608,10 +608,15 @@ def normalize_merchant(
             # Check if rule matches
             matches = False
 
-            if _is_expression_pattern(pattern):
+            use_regex = not _is_expression_pattern(pattern)
+            if not use_regex:
                 # Use expression parser for expression-based rules
-                matches = expr_parser.matches_transaction(pattern, transaction, data_sources=data_sources)
-            else:
+                try:
+                    matches = expr_parser.matches_transaction(pattern, transaction, data_sources=data_sources)
+                except expr_parser.ExpressionError:
+                    # Not an expression after all (e.g. the legacy regex "(UBER|LYFT)")
+                    use_regex = True
+            if use_regex:
                 # Legacy regex pattern matching
                 if re.search(pattern, desc_upper, re.IGNORECASE):
                     # Check modifiers if present
